@@ -214,47 +214,53 @@ func (c *Ctx) ruleR06a(rule string) {
 				}
 			}
 			if header != nil || len(fl.Fields) > 0 {
-				for _, r := range ssax.Returns(fn) {
-					if len(r.Results) != 3 || !ssax.IsNilConst(ssax.Strip(r.Results[2])) {
-						continue
-					}
-					if !(r.Block() == cl.Block() || ssax.Reaches(cl.Block(), r.Block(), false)) {
-						continue
-					}
-					if ssax.IsNilConst(ssax.Strip(r.Results[0])) {
-						continue // curtailed / empty return
-					}
-					recorded := false
-					for _, k2 := range ssax.Calls(fn) {
-						k, ok := k2.(*ssa.Call)
-						if !ok {
+				owners := []*ssa.Function{fn}
+				if !ssax.IsParserSig(fn.Signature) {
+					owners = c.helperOwners(fn)
+				}
+				for _, own := range owners {
+					for _, r := range ssax.Returns(own) {
+						if len(r.Results) != 3 || !ssax.IsNilConst(ssax.Strip(r.Results[2])) {
 							continue
 						}
-						sc := k.Call.StaticCallee()
-						if sc == nil || sc.Name() != "SetError" || len(k.Call.Args) != 2 {
+						if own == fn && !(r.Block() == cl.Block() || ssax.Reaches(cl.Block(), r.Block(), false)) {
 							continue
 						}
-						if !(k.Block() == r.Block() || ssax.Reaches(k.Block(), r.Block(), false)) {
-							continue
+						if ssax.IsNilConst(ssax.Strip(r.Results[0])) {
+							continue // curtailed / empty return
 						}
-						arg := k.Call.Args[1]
-						dep := false
-						if header != nil && dependsOn(arg, header, nil) {
-							dep = true
-						}
-						if u, ok := ssax.Strip(arg).(*ssa.UnOp); ok && u.Op == token.MUL {
-							if fa, ok := u.X.(*ssa.FieldAddr); ok && fl.Fields[fieldVar(fa)] {
+						recorded := false
+						for _, k2 := range ssax.Calls(own) {
+							k, ok := k2.(*ssa.Call)
+							if !ok {
+								continue
+							}
+							sc := k.Call.StaticCallee()
+							if sc == nil || sc.Name() != "SetError" || len(k.Call.Args) != 2 {
+								continue
+							}
+							if !(k.Block() == r.Block() || ssax.Reaches(k.Block(), r.Block(), false)) {
+								continue
+							}
+							arg := k.Call.Args[1]
+							dep := false
+							if header != nil && dependsOn(arg, header, nil) {
 								dep = true
 							}
+							if u, ok := ssax.Strip(arg).(*ssa.UnOp); ok && u.Op == token.MUL {
+								if fa, ok := u.X.(*ssa.FieldAddr); ok && fl.Fields[fieldVar(fa)] {
+									dep = true
+								}
+							}
+							if dep {
+								recorded = true
+							}
 						}
-						if dep {
-							recorded = true
+						if !recorded {
+							bad = true
+							c.R.Violation(rule, c.name(own)+" success without recording accumulated error", c.name(own), c.P.InstrPos(r),
+								"a successful return is not preceded by Context.SetError of a value that includes the errors accumulated from earlier nested calls: when a later alternative matches, the furthest failure of the earlier ones is forgotten")
 						}
-					}
-					if !recorded {
-						bad = true
-						c.R.Violation(rule, name+" success without recording accumulated error", name, c.P.InstrPos(r),
-							"a successful return is not preceded by Context.SetError of a value that includes the errors accumulated from earlier nested calls: when a later alternative matches, the furthest failure of the earlier ones is forgotten")
 					}
 				}
 			}
